@@ -56,7 +56,9 @@ func GoEnv() []string {
 		}
 		out = append(out, e)
 	}
-	return append(out, "GOFLAGS=-mod=mod", "GOPROXY=off", "GOTOOLCHAIN=local")
+	// GODEBUG=goindex=0: the module-cache package index ignores -overlay, so new imports
+	// added to instrumented module-cache files (x/sync/semaphore, gorilla) would be missed.
+	return append(out, "GOFLAGS=-mod=mod", "GOPROXY=off", "GOTOOLCHAIN=local", "GODEBUG=goindex=0")
 }
 
 // Run runs a command in dir and returns combined output.
@@ -152,6 +154,7 @@ func RunGenerator(dir, cwd, stub string) (GenResult, error) {
 	if err != nil {
 		return GenResult{}, err
 	}
+	RefreshSum(dir)
 	var args []string
 	if stub != "" {
 		os.MkdirAll(filepath.Dir(filepath.Join(cwd, stub)), 0o755)
@@ -169,8 +172,23 @@ func RunGenerator(dir, cwd, stub string) (GenResult, error) {
 	return res, nil
 }
 
+// RefreshSum re-copies the tree's go.sum into the scratch module: go commands run with
+// -mod=mod rewrite go.sum down to what the module currently needs, which drops sums that
+// a later step needs (x/sync once generated code or instrumentation imports it).
+func RefreshSum(dir string) {
+	for d := dir; d != "/" && d != "."; d = filepath.Dir(d) {
+		if _, err := os.Stat(filepath.Join(d, "go.mod")); err == nil {
+			if sum, err := os.ReadFile(filepath.Join(common.RepoDir(), "go.sum")); err == nil {
+				os.WriteFile(filepath.Join(d, "go.sum"), sum, 0o644)
+			}
+			return
+		}
+	}
+}
+
 // GoBuild runs `go build` in a scratch module; extra are extra args (e.g. -overlay, -o, pkgs).
 func GoBuild(dir string, extra ...string) (string, error) {
+	RefreshSum(dir)
 	return Run(dir, GoEnv(), "go", append([]string{"build"}, extra...)...)
 }
 
@@ -231,6 +249,7 @@ func BuildInstrumented(dir string, vinstrArgs []string, mainPkg, out string) err
 	}
 	idir := filepath.Join(dir, ".instr")
 	os.RemoveAll(idir)
+	RefreshSum(dir)
 	args := append([]string{"-dir", dir, "-out", idir, "-stats", filepath.Join(idir, "stats.json")}, vinstrArgs...)
 	if o, err := Run(dir, GoEnv(), vi, args...); err != nil {
 		return fmt.Errorf("vinstr: %v\n%s", err, o)
